@@ -165,7 +165,13 @@ def new_zipfile(ex, st, args, kwargs, node):
         st.assume(t >= 0)
         st.ghost[common.pos_key(src)] = t
     st.ghost["open_zips"] = st.ghost.get("open_zips", frozenset()) | {zf.t.get_id()}
+    _note_opened(st, zf, src)
     return [(st, zf)]
+
+
+def _note_opened(st, zf, src):
+    """ghost: the container views opened on this path and the stream each was opened from (terms kept alive here)."""
+    st.ghost["c11!opened"] = st.ghost.get("c11!opened", ()) + ((zf.t, src.t if isinstance(src, VExt) and src.sort == "BytesIO" else None),)
 
 
 def _fresh_open_zip(ex, st, ctx):
@@ -177,6 +183,7 @@ def _fresh_open_zip(ex, st, ctx):
         t = z3.Int(fresh_name("pos"))
         st.assume(t >= 0)
         st.ghost[common.pos_key(src)] = t
+    _note_opened(st, zf, src)
     return zf
 
 
@@ -309,11 +316,20 @@ def _contracts(reg):
         c.entry.ghost[common.pos_key(c.args["file_like"])] = t
         return lim_req(c)
 
+    def accepted_only(c):
+        # round 6: a normal return means a container view opened FROM THIS STREAM on this path was accepted by the guard
+        # (through validate_zipfile or open_zipfile): a wrapper that swallows the rejection, or validates something else,
+        # returns on a path where no such fact exists.
+        L = limits_of(c)
+        mine = [z for (z, src) in c.st.ghost.get("c11!opened", ()) if src is not None and z3.eq(src, c.args["file_like"].t)]
+        return z3.Or([z3.Not(spec_reject(z, L)) for z in mine] + [z3.BoolVal(False)])
+
     out.append(FnContract(
         target=f"{ZB}::validate_zip_bytesio",
         params=[("file_like", p_ext("BytesIO")), ("limits", limits_param("validate_zip_bytesio")), ("source", p_opt(p_str()))],
         requires=pos_entry,
         ensures=[("position-restored", pos_restored),
+                 ("returns-only-for-an-accepted-container", accepted_only),
                  ("no-container-left-open", lambda c: z3.BoolVal(not c.st.ghost.get("open_zips")))],
         raises=[Raises("Exception", sub=True, label="any failure, position restored, container closed",
                        when=lambda c: z3.And(pos_restored(c), z3.BoolVal(not c.st.ghost.get("open_zips"))))],
